@@ -22,7 +22,7 @@ from typing import Dict, List, Optional, Set, Tuple
 
 from sa import registryx, sqlexpr, sqlx
 from sa.checks.c26 import load_catalogue
-from sa.checks.c32 import decision_list, holds
+from sa.checks.c32 import decision_list, guards_hold, holds
 from sa.core import AnalysisError, Finding, Program, Report, program, src, walk_no_nested
 
 UTILS = "vtlengine.Utils"
@@ -247,7 +247,7 @@ def run(rep: Report, tier: str) -> None:
             why = f"macro {mname} has no `WHEN <divisor> = 0 THEN error('…')` branch on its second parameter"
             continue
         text = mm.group(2).lower()
-        claimed = next(((c, cls, code) for c, cls, code, _ in mapper if holds(c, text)), None)
+        claimed = next(((c, cls, code) for c, cls, code, _, gs in mapper if holds(c, text) and guards_hold(P, gs, f"SELECT {mname}(a, b) FROM t")), None)
         rep.instance("R01.4", "div-error-mapped", nontrivial=True, sample={"macro": mname, "error_text": mm.group(2), "mapped_to": claimed[2] if claimed else None})
         if claimed is None:
             why = f"error text {mm.group(2)!r} of {mname} is not matched by any branch of _map_query_error"
